@@ -116,12 +116,15 @@ package controllers
 
 //@ func package-operator.run/internal/controllers.(*PhaseReconciler).teardownPhaseObject
 //@   requires [C04] !tdPending()
-//@   sink Writer.Delete requires [C05,C08] lastGet() == 2 && isCtrl(arg1, oid(clientObj(owner)))
+//@   sink Writer.Delete requires [C01,C05,C08] lastGet() == 2 && isCtrl(arg1, oid(clientObj(owner)))
 // (C08: the delete is pinned to the version in which the revision was seen to control the object, so an object adopted
 //  in place by the incoming revision in the meantime is not deleted during the handover)
-//@   sink Writer.Delete requires [C05,C08] *asstruct("sigs.k8s.io/controller-runtime/pkg/client.Preconditions", varargs[0]).UID == uid(arg1) && *asstruct("sigs.k8s.io/controller-runtime/pkg/client.Preconditions", varargs[0]).ResourceVersion == rv(arg1)
+//@   sink Writer.Delete requires [C01,C05,C08] *asstruct("sigs.k8s.io/controller-runtime/pkg/client.Preconditions", varargs[0]).UID == uid(arg1) && *asstruct("sigs.k8s.io/controller-runtime/pkg/client.Preconditions", varargs[0]).ResourceVersion == rv(arg1)
 //@   sink Writer.Delete requires [C04] !tdPending()
 //@   sink Writer.Patch#1 requires [C05] lastGet() == 2 && !isCtrl(arg1, oid(clientObj(owner))) && isOwner(arg1, oid(clientObj(owner)))
+// the object state a teardown write is based on is read after the (possibly long blocking) watch set-up, not before it:
+// the owner list written back is the one read right before the write, so a handover that happens meanwhile is not undone
+//@   at dynamicCache.Watch assert [C02,C05] lastGet() == old(lastGet()) && lastGetObj() == old(lastGetObj())
 //@   ensures [C04] err == nil && cleanupDone ==> pfViolations() > 0 || lastGet() == 4 || (lastGet() == 2 && !lastGetCtrl()[oid(clientObj(owner))]) || lastDeleteGone()
 //@   ensures [C05] W() <= old(W()) + 1
 //@   ensures [C05] pfViolations() > 0 ==> W() == old(W())
